@@ -47,6 +47,12 @@ Inductive reach (g : adj) (a : nat) : nat -> Prop :=
 | reach_step b c : reach g a b -> In c (nbrs g b) -> reach g a c.
 
 Definition wf (g : adj) : Prop := forall q x, In x (nbrs g q) -> x < length g.
+(* undirected: the adjacency lists are symmetric (CouplingGraph.__init__ adds both directions) *)
+Definition sym (g : adj) : Prop := forall a b, In a (nbrs g b) -> In b (nbrs g a).
+(* no self-loops (is_valid_coupling_graph rejects pairs (a, a)) *)
+Definition loopfree (g : adj) : Prop := forall a, ~ In a (nbrs g a).
+(* adjacency "sets" have no repeated element *)
+Definition nodup_adj (g : adj) : Prop := forall a, NoDup (nbrs g a).
 Definition allreach (g : adj) : Prop := forall v, v < length g -> reach g 0 v.
 
 Record Inv (g : adj) (frontier seen : list nat) : Prop := {
@@ -168,9 +174,3 @@ Proof. intros Hwf Hn. unfold is_fully_connected. destruct (length g) eqn:E; [con
 Theorem is_fully_connected_empty : is_fully_connected [] = None.
 Proof. reflexivity. Qed.
 
-(* ---- the swap loop of from_qudit_location ---------------------------------- *)
-(* Statement at the level of wire labels: after the loop the arrangement is the
-   identity, and pushing wire `nth i loc` through the recorded swaps lands on
-   position i.  Proved for every n and every duplicate-free in-range location
-   by the invariant "positions < k are fixed points; cur is a permutation and
-   push_wire swaps (nth p cur0) = ... ".  See PermThm.v. *)
